@@ -31,6 +31,7 @@ Fixpoint expr_vars (e : expr) : list var :=
   | EBin _ a b => expr_vars a ++ expr_vars b
   | EUn _ a => expr_vars a
   | EHasLabel x _ => [x]
+  | EOpaque _ vs => vs
   end.
 
 Definition aliases (items : list item) : list var :=
@@ -347,6 +348,7 @@ Fixpoint req_expr (e : expr) : list reqcol :=
   | EBin _ a b => req_expr a ++ req_expr b
   | EUn _ a => req_expr a
   | EHasLabel x _ => [(x, None)]
+  | EOpaque _ vs => map (fun v => (v, None)) vs
   end.
 
 Fixpoint required (p : plan) : list reqcol :=
